@@ -135,7 +135,14 @@ fn gen(rng: &mut Rng, cell: &mut Cell) -> GCfg {
         if let Some(d) = dsd {
             defects.insert(d.into());
         }
-        let default_role = match rng.below(20) {
+        let default_role = match rng.below(22) {
+            // a valid role name in another letter case: accepting or rejecting it are both fine,
+            // as long as an accepted file is served (no panic, role honoured)
+            20 => {
+                defects.insert("default_role_other_case".into());
+                *rng.pick(&["Primary", "REPLICA", "Any", "pRiMaRy"])
+            }
+            21 => "any",
             0..=2 | 8..=19 => "any",
             3..=4 => "replica",
             5..=6 => "primary",
